@@ -114,7 +114,8 @@ type scenarioT struct {
 	Roles   []string    `json:"roles"`
 	HK      []hkT       `json:"hk"`
 	Inline  []inlineOpT `json:"inline"`
-	CloseAt int         `json:"close_at"` // Server.Close() is called once this percentage of the client goroutines has finished
+	CloseAt int         `json:"close_at"`        // Server.Close() is called once this percentage of the client goroutines has finished
+	Focus   string      `json:"focus,omitempty"` // "" (mix) | "wills" | "expiry": the scenario kind most goroutines are given
 }
 
 // ---- generator ---------------------------------------------------------------------------------------------
@@ -142,7 +143,14 @@ func genScenario(t *rapid.T) scenarioT {
 		MaximumInflight: rapid.SampledFrom([]uint16{0, 0, 6}).Draw(t, "maxInflight"),
 	}
 	n := rapid.IntRange(16, 64).Draw(t, "clients")
+	sc.Focus = rapid.SampledFrom([]string{"", "", "", "wills", "expiry"}).Draw(t, "focus")
 	pool := n/4 + 2 // shared client ids: several goroutines use the same id, so sessions are taken over all the time
+	if sc.Focus != "" {
+		pool = rapid.IntRange(2, 5).Draw(t, "pool")
+		if sc.Opts.MaxSessionExp == 0 && sc.Focus == "expiry" {
+			sc.Opts.MaxSessionExp = rapid.SampledFrom([]uint32{0, 5, 60}).Draw(t, "maxSessExp2")
+		}
+	}
 	id := func() string { return fmt.Sprintf("c%d", rapid.IntRange(0, pool-1).Draw(t, "id")) }
 	yield := func() int { return rapid.SampledFrom([]int{0, 0, 0, 1, 3}).Draw(t, "y") }
 
@@ -160,8 +168,16 @@ func genScenario(t *rapid.T) scenarioT {
 		default:
 			s.ID = id()
 		}
+		if sc.Focus != "" && role != "fan" {
+			s.Ver = rapid.SampledFrom([]byte{5, 5, 5, 4}).Draw(t, "ver2")
+			s.Clean = rapid.IntRange(0, 7).Draw(t, "clean2") == 0
+		}
 		if s.Ver == 5 {
-			if e := rapid.SampledFrom([]int64{-1, 0, 1, 30, 4000000000}).Draw(t, "expiry"); e >= 0 {
+			exps := []int64{-1, 0, 1, 30, 4000000000}
+			if sc.Focus != "" {
+				exps = []int64{0, 30, 30, 100, 4000000000}
+			}
+			if e := rapid.SampledFrom(exps).Draw(t, "expiry"); e >= 0 {
 				s.Expiry = u32p(uint32(e))
 			}
 		}
@@ -170,6 +186,9 @@ func genScenario(t *rapid.T) scenarioT {
 				Retain: rapid.IntRange(0, 3).Draw(t, "wretain") == 0}
 			if s.Ver == 5 {
 				s.Will.Delay = rapid.SampledFrom([]uint32{0, 0, 1, 30}).Draw(t, "wdelay")
+				if sc.Focus == "wills" {
+					s.Will.Delay = rapid.SampledFrom([]uint32{0, 1, 1, 30}).Draw(t, "wdelay2")
+				}
 			}
 		}
 		return s
@@ -209,17 +228,20 @@ func genScenario(t *rapid.T) scenarioT {
 
 	for i := 0; i < n; i++ {
 		role := rapid.SampledFrom(roleNames).Draw(t, "role")
+		if sc.Focus != "" && rapid.IntRange(0, 9).Draw(t, "focused") < 8 {
+			role = map[string]string{"wills": "will", "expiry": "expiry"}[sc.Focus]
+		}
 		sc.Roles = append(sc.Roles, role)
 		var script []stepT
-		sessions := rapid.IntRange(1, 3).Draw(t, "sessions")
+		sessions := rapid.IntRange(1, 4).Draw(t, "sessions")
 		if role == "will" || role == "expiry" {
-			sessions = rapid.IntRange(2, 5).Draw(t, "sessions")
+			sessions = rapid.IntRange(2, 6).Draw(t, "sessions")
 		}
 		for s := 0; s < sessions; s++ {
 			script = append(script, connect(role, i))
-			ops := rapid.IntRange(1, 12).Draw(t, "ops")
+			ops := rapid.IntRange(1, 20).Draw(t, "ops")
 			if role == "will" || role == "expiry" {
-				ops = rapid.IntRange(0, 4).Draw(t, "ops")
+				ops = rapid.IntRange(0, 3).Draw(t, "ops")
 			}
 			for o := 0; o < ops; o++ {
 				k := rapid.IntRange(0, 99).Draw(t, "op")
@@ -282,8 +304,15 @@ func genScenario(t *rapid.T) scenarioT {
 	}
 
 	nh := rapid.IntRange(3, 12).Draw(t, "nhk")
+	kinds := hkKinds
+	switch sc.Focus {
+	case "wills":
+		kinds = []string{"wills", "wills", "wills", "clients", "probe"}
+	case "expiry":
+		kinds = []string{"clients", "clients", "clients", "wills", "inflight"}
+	}
 	for i := 0; i < nh; i++ {
-		sc.HK = append(sc.HK, hkT{Kind: rapid.SampledFrom(hkKinds).Draw(t, "hk"), Off: rapid.SampledFrom(hkOffsets).Draw(t, "off"), Y: yield()})
+		sc.HK = append(sc.HK, hkT{Kind: rapid.SampledFrom(kinds).Draw(t, "hk"), Off: rapid.SampledFrom(hkOffsets).Draw(t, "off"), Y: yield()})
 	}
 	ni := rapid.IntRange(2, 10).Draw(t, "ninline")
 	for i := 0; i < ni; i++ {
@@ -500,20 +529,26 @@ type waiterT struct {
 }
 
 type resultT struct {
-	Finished bool               `json:"finished"`
-	Stall    string             `json:"stall,omitempty"` // "lock-waiters" | "no-lock-waiters"
-	Waiters  []waiterT          `json:"waiters,omitempty"`
-	Dump     string             `json:"dump,omitempty"`
-	Panics   []string           `json:"panics,omitempty"`
-	Counters map[string]int64   `json:"counters"`
-	Spans    map[string]kindSpan `json:"spans"`
-	WallMs   int64              `json:"wall_ms"`
+	Finished     bool                `json:"finished"`
+	Stall        string              `json:"stall,omitempty"` // "lock-waiters" | "no-lock-waiters"
+	Waiters      []waiterT           `json:"waiters,omitempty"`
+	Dump         string              `json:"dump,omitempty"`
+	Panics       []string            `json:"panics,omitempty"`
+	Counters     map[string]int64    `json:"counters"`
+	Spans        map[string]kindSpan `json:"spans"`
+	WallMs       int64               `json:"wall_ms"`
+	StallAfterMs int64               `json:"stall_after_ms,omitempty"` // how long the progress vector had not moved when the stall was declared
 }
+
+const earlyStallWindow = 3 * time.Second
 
 type childIn struct {
 	Scenario    scenarioT `json:"scenario"`
 	StallWindow int       `json:"stall_window_ms"`
 	OutPath     string    `json:"out_path"`
+	// ListedStalls: signatures of open known findings; a stall with one of these signatures is reported after
+	// earlyStallWindow instead of StallWindow (it reproduces a listed finding, it is never a new verdict)
+	ListedStalls []string `json:"listed_stalls,omitempty"`
 }
 
 // clientState is the client goroutine's view of one connection.
@@ -882,11 +917,7 @@ func (r *runner) hkMain(st map[string]int64, sp map[string]kindSpan, stop *atomi
 				runtime.Gosched()
 			}
 			if h.Kind == "probe" {
-				for _, cl := range r.srv.Clients.GetAll() {
-					if n := len(cl.State.Inflight.GetAll(true)); n > 0 {
-						st["deferred-sends-seen"] += int64(n)
-					}
-				}
+				r.probeDeferred(st)
 			} else {
 				r.srv.VerifHousekeep(h.Kind, time.Now().Unix()+h.Off)
 				if h.Kind == "clients" {
@@ -896,7 +927,17 @@ func (r *runner) hkMain(st map[string]int64, sp map[string]kindSpan, stop *atomi
 			st["housekeeping:"+h.Kind]++
 			r.hkCalls.Add(1)
 		}
+		r.probeDeferred(st)
 		time.Sleep(200 * time.Microsecond)
+	}
+}
+
+// probeDeferred counts in-flight messages that are held back until send quota is free (Expiry < 0): deferred sends.
+func (r *runner) probeDeferred(st map[string]int64) {
+	for _, cl := range r.srv.Clients.GetAll() {
+		if n := len(cl.State.Inflight.GetAll(true)); n > 0 {
+			st["deferred-sends-seen"] += int64(n)
+		}
 	}
 }
 
@@ -1031,7 +1072,27 @@ func runScenario(in childIn) *resultT {
 
 	res := &resultT{Counters: map[string]int64{}, Spans: map[string]kindSpan{}}
 	window := time.Duration(in.StallWindow) * time.Millisecond
-	last, lastChange := int64(-1), time.Now()
+	early := map[string]bool{}
+	for _, sg := range in.ListedStalls {
+		early[sg] = true
+	}
+	// stalled looks at the goroutines twice, 0.5 s apart, and keeps the lock waiters present both times
+	stalled := func(last int64) (ws []waiterT, dump string, still bool) {
+		d1 := fullDump()
+		w1 := lockWaiters(d1)
+		time.Sleep(500 * time.Millisecond)
+		in2 := map[int]bool{}
+		for _, w := range lockWaiters(fullDump()) {
+			in2[w.G] = true
+		}
+		for _, w := range w1 {
+			if in2[w.G] {
+				ws = append(ws, w)
+			}
+		}
+		return ws, d1, r.progress() == last
+	}
+	last, lastChange, earlyDone := int64(-1), time.Now(), false
 	tick := time.NewTicker(100 * time.Millisecond)
 	defer tick.Stop()
 loop:
@@ -1041,30 +1102,29 @@ loop:
 			res.Finished = true
 			break loop
 		case <-tick.C:
-			if p := r.progress(); p != last {
-				last, lastChange = p, time.Now()
-			} else if time.Since(lastChange) >= window {
-				// second observation, `window` after the first one that showed this value
-				d1 := fullDump()
-				w1 := lockWaiters(d1)
-				time.Sleep(500 * time.Millisecond)
-				w2 := lockWaiters(fullDump())
-				still := map[int]bool{}
-				for _, w := range w2 {
-					still[w.G] = true
-				}
-				for _, w := range w1 {
-					if still[w.G] {
-						res.Waiters = append(res.Waiters, w)
+			p := r.progress()
+			idle := time.Since(lastChange)
+			switch {
+			case p != last:
+				last, lastChange, earlyDone = p, time.Now(), false
+			case idle >= earlyStallWindow && !earlyDone && len(early) > 0 && idle < window:
+				// a stall whose dump has the shape of a LISTED finding is reported after the short window: it only
+				// reproduces something known (a nested read lock with a waiting writer cannot resolve itself)
+				earlyDone = true
+				if ws, d, still := stalled(last); still && len(ws) > 0 {
+					if sg, _ := stallSignature(ws); early[sg] {
+						res.Waiters, res.Dump, res.Stall, res.StallAfterMs = ws, d, "lock-waiters", idle.Milliseconds()
+						break loop
 					}
 				}
-				if r.progress() != last {
-					last, lastChange = r.progress(), time.Now()
-					res.Waiters = nil
+			case idle >= window:
+				// second observation, `window` after the first one that showed this value
+				ws, d, still := stalled(last)
+				if !still {
 					continue
 				}
-				res.Dump = d1
-				if len(res.Waiters) > 0 {
+				res.Waiters, res.Dump, res.StallAfterMs = ws, d, idle.Milliseconds()
+				if len(ws) > 0 {
 					res.Stall = "lock-waiters"
 				} else {
 					res.Stall = "no-lock-waiters"
